@@ -188,7 +188,7 @@ fn run(args: &Args) {
                 let p = &profiles[pi];
                 let cs = seed.wrapping_mul(0x1000_0000_01b3).wrapping_add(fnv(p.name)).wrapping_add((c as u64).wrapping_mul(0x9E37_79B9));
                 let mut rng = Rng::new(cs);
-                let trace = run_script(p, &mut rng, tier);
+                let trace = run_script(p, &mut rng, tier, c);
                 local.push(CaseResult { profile: pi, case: c, seed: cs, trace });
             }
             let cases: Vec<&[String]> = local.iter().map(|r| r.trace.ops.as_slice()).collect();
